@@ -37,6 +37,9 @@ def body_src(stmts, *, with_assigns: bool = True) -> str:
             out.append("{% for " + st_[1] + " in (1..2) %}{{ " + st_[1] + " }}{% endfor %},")
         elif op == "if":
             out.append("{% if " + st_[1] + " %}T{% else %}F{% endif %},")
+        elif op == "loopvars":
+            # the loop helpers of a caller's loop are caller locals too
+            out.append("{{ forloop.index }}/{% for z in (1..1) %}{{ forloop.parentloop.index }}{{ forloop.parentloop.length }}{% endfor %}/{{ tablerowloop.index }},")
     return "".join(out)
 
 
@@ -157,6 +160,9 @@ def evaluate(case) -> Verdict:
             )
     reads = {s[1] for s in case["body"] if s[0] in ("read", "if")}
     binds = {s[1] for s in case["prelude1"] + case["prelude2"]}
+    if any(s[0] == "loopvars" for s in case["body"]) and any(s[0] == "for" for s in case["prelude1"] + case["prelude2"]):
+        reads.add("forloop")
+        binds.add("forloop")
     assigns = {s[1] for s in case["body"] if s[0] in ("assign", "capture", "incr")}
     v.nontrivial = bool(reads & binds) or bool(assigns)
     v.labels.append("mode:" + mode)
@@ -247,8 +253,10 @@ def _body(r) -> list:
             out.append(["capture", name, "pc"])
         elif c < 0.76:
             out.append(["incr", name])
-        elif c < 0.86:
+        elif c < 0.84:
             out.append(["loop", name])
+        elif c < 0.92:
+            out.append(["loopvars", name])
         else:
             out.append(["if", name])
     out.append(["read", r.choice(NAMES)])
@@ -301,7 +309,8 @@ def finish_kwargs(ctx: core.Ctx, tier: str) -> dict:
             "with block or a counter, then {% render 'p' %} (plain, with ... as, for ... as, literal keyword "
             "arguments) or {% macro %}/{% call %} (positional or keyword arguments, some parameters omitted with or "
             "without a default), then a postlude printing the four names; the partial/macro body "
-            "reads, assigns, captures, increments and loops over the same names between sentinels. R1: the text "
+            "reads, assigns, captures, increments and loops over the same names, and reads forloop / forloop.parentloop / "
+            "tablerowloop, between sentinels. R1: the text "
             "between the sentinels is identical for two different preludes (arguments and globals fixed). R2: the "
             "postlude output is identical when the body's assignments are removed. R3: include (directly, in a block, in a liquid tag, in a capture) "
             f"inside a partial reached through any of {len(VIAS)} call forms (plain, keyword arguments, with/for with and "
